@@ -172,6 +172,18 @@ def misuse(ctx):
             return P2.interp.getattr(r, 'diff')
         expect_value_error(rep, 'R-MISUSE', 'finite_difference.LogRule.diff', fd.relpath,
                            'LogRule(n=%d, multicomplex).diff' % n, thunk2, 'multicomplex n>2 diff')
+    # ... and in a process that has used the method legally before (a memo filled by n = 1, 2 must not answer for n = 5, 6)
+    Ph = Pipeline(repo)
+    for n_ok in (1, 2):
+        obj, x = Ph.build('Derivative', 'multicomplex', 2, n=n_ok, step=Ph.sym_generator('Min'))
+        estimates(Ph.interp, obj, x)
+    for n in range(3, 11):
+        def thunk_h(n=n):
+            obj, x = Ph.build('Derivative', 'multicomplex', 2, n=n, step=Ph.sym_generator('Min'))
+            return estimates(Ph.interp, obj, x)
+        expect_value_error(rep, 'R-MISUSE', 'finite_difference.LogRule._multicomplex_middle_name', fd.relpath,
+                           'Derivative(method=multicomplex, n=%d) after legal calls with n = 1, 2 in the same process' % n, thunk_h,
+                           'multicomplex n>2')
     # fewer steps than the rule needs
     for method, n, order, steps in (('central', 3, 4, 2), ('forward', 2, 3, 3), ('complex', 5, 4, 1), ('central', 1, 6, 2)):
         P = Pipeline(repo)
